@@ -15,6 +15,7 @@
 
 from binascii import hexlify
 import io
+import struct
 
 from kmip.core import exceptions
 
@@ -60,6 +61,70 @@ def build_er_error(class_object, descriptor, expected, received,
         class_string = '{0}.{1}'.format(class_object.__name__, attribute)
 
     return msg.format(class_string, descriptor, expected, received)
+
+
+def verify_ttlv_framing(data):
+    """
+    Verify that the nested TTLV items of an encoded message are consistent
+    with their length fields: every item must lie within its parent, a
+    structure must be filled exactly by its children, and fixed-size types
+    must carry their mandated length.
+
+    The decoders read sub-streams by length and accept a stream that is
+    shorter than announced, so without this check a truncated message, or a
+    message with an inflated inner length, is decoded with shortened values
+    or silently dropped parts.
+
+    Args:
+        data (bytes): The bytes of one message. Required.
+
+    Raises:
+        InvalidKmipEncoding: if the framing is inconsistent.
+    """
+    # Type codes: 1 Structure, 2 Integer, 3 Long Integer, 4 Big Integer,
+    # 5 Enumeration, 6 Boolean, 7 Text String, 8 Byte String, 9 Date-Time,
+    # 10 Interval.
+    structure = 0x01
+    known_types = range(0x01, 0x0B)
+    fixed_lengths = {0x02: 4, 0x03: 8, 0x05: 4, 0x06: 8, 0x09: 8, 0x0A: 4}
+
+    # Pairs of (start, end) offsets of item sequences still to verify.
+    pending = [(0, len(data))]
+    while pending:
+        position, end = pending.pop()
+        while position < end:
+            if end - position < 8:
+                raise exceptions.InvalidKmipEncoding(
+                    "The message contains a truncated item."
+                )
+            item_type = struct.unpack(
+                '!B',
+                bytes(data[position + 3:position + 4])
+            )[0]
+            length = struct.unpack(
+                '!I',
+                bytes(data[position + 4:position + 8])
+            )[0]
+            if item_type not in known_types:
+                raise exceptions.InvalidKmipEncoding(
+                    "The message contains an item of unknown type."
+                )
+            if fixed_lengths.get(item_type, length) != length:
+                raise exceptions.InvalidKmipEncoding(
+                    "The message contains an item whose length does not "
+                    "match its type."
+                )
+            if item_type == structure:
+                padded_length = length
+                pending.append((position + 8, position + 8 + length))
+            else:
+                padded_length = length + ((8 - (length % 8)) % 8)
+            if position + 8 + padded_length > end:
+                raise exceptions.InvalidKmipEncoding(
+                    "The message contains an item that runs past the end "
+                    "of the structure holding it."
+                )
+            position += 8 + padded_length
 
 
 class BytearrayStream(io.RawIOBase):
